@@ -15,4 +15,13 @@ CLAIMS = {
                 "transceivers do not transmit; every transceiver ticks; only the forwarder delivers.",
         "note": TB + "Not decided: correctness of HoppingParams.resolve (C07), what the recipient does after delivery (C10, C18).",
     },
+    "C03": {
+        "technique": "lockset + who-may-write + guard-literal analysis; finite case split of the comparison-only tick classifier folded over boundary witnesses; modular-FN comparison lint",
+        "text": "Decides the premises of the queue invariant for all schedules and histories: every _tx_queue access is under "
+                "_tx_queue_lock (read and replace in one critical section); only append/clear/clck_tick write it; an arrival is "
+                "enqueued exactly once iff parsed, version-matched and running; the tick classifier sends each queued message to "
+                "exactly one of emit (FN equal) / stale (modular past) / wait (modular future) under every ordering incl. the "
+                "hyperframe wrap; each due burst is forwarded once, each stale one logged; power-off clears every selected queue.",
+        "note": TB + "Not decided: exactly-once over all histories as such (induction over these premises is argued in DESIGN.md), fairness of the clock thread.",
+    },
 }
